@@ -294,7 +294,11 @@ type Diff struct {
 }
 
 func (d *Diff) String() string {
-	return fmt.Sprintf("%s: box %q %s (%s)", d.Path, d.Type, d.What, d.Msg)
+	p := d.Path
+	if p == "" {
+		p = "top level"
+	}
+	return fmt.Sprintf("%s: box %q %s (%s)", p, d.Type, d.What, d.Msg)
 }
 
 // DiffOpts tunes DiffBoxes.
